@@ -58,9 +58,9 @@ def gen_leaf(rng, is_prop, nodes, lits):
         return ("mincount", rng.randint(0, 3))
     if k == "maxcount":
         return ("maxcount", rng.randint(0, 2))
-    pool = [n for n in nodes if not isinstance(n, BNode)] + lits
+    pool = list(dict.fromkeys([n for n in nodes if not isinstance(n, BNode)] + lits))   # a term once: parameter values are sets
     if k == "hasvalue":
-        return ("hasvalue", rng.sample(pool, rng.randint(1, 2)))
+        return ("hasvalue", rng.sample(pool, min(len(pool), rng.randint(1, 2))))
     return ("in", rng.sample(pool, rng.randint(0, min(4, len(pool)))))
 
 
